@@ -44,6 +44,10 @@ def cid_rows(fmt, field_specs, check_rows=()):
     if layout in ("late-properties", "both"):
         late = [row for row in properties[1:] if row[1].lower() in _LATE_PROPERTIES]
         properties = [row for row in properties if row not in late]
+        if fmt.get("allowed_at_first"):
+            # the allowed characters are declared twice: generously in front of the fields, for good behind them
+            # (what counts is the last declaration)
+            properties = properties[:1] + [["D", "Allowed characters", fmt["allowed_at_first"]]] + properties[1:]
     body = list(field_rows)
     tail = []
     if layout in ("early-checks", "both"):
